@@ -89,8 +89,16 @@ func gen(r *core.Rand, tier string) core.Case {
 		cap = r.Range(-1, 0)
 	}
 	lines := []string{fmt.Sprintf("@ C10 ring %d", cap)}
-	if r.Chance(1) {
+	if r.Chance(2) {
 		lines[0] = "@ C10 ring zero" // var r Ring[int] without Init
+		if r.Bool() {
+			// c10_ring_zero_histories: benign calls leave the zero value alone, the first Init makes it
+			// an ordinary ring (the rest of the case is then a FIFO history)
+			for k := r.Range(0, 4); k > 0; k-- {
+				lines = append(lines, []string{"len", "cap", "isempty", "recap 0", "recap -3"}[r.Intn(5)])
+			}
+			lines = append(lines, fmt.Sprintf("init %d", r.Range(1, 6)))
+		}
 	}
 	n := r.Range(1, 40)
 	next := 1
@@ -196,7 +204,21 @@ func ringOp(r *ringz.Ring[int], t []string) string {
 func check(c core.Case, out []string) *core.Failure {
 	hdr := core.Toks(c.Lines[0])
 	if hdr[3] == "zero" {
-		return nil // no capacity was requested: outside the property (model tie only)
+		// no capacity was requested: outside the property (model tie only) — until the first
+		// Init(c > 0), from which on the lines are judged as a case of their own
+		for i := 1; i < len(c.Lines); i++ {
+			t := core.Toks(c.Lines[i])
+			if t[0] == "init" && len(t) == 2 && out[i] == "ok" {
+				if n, err := strconv.Atoi(t[1]); err == nil && n > 0 {
+					sub := core.Case{Lines: append([]string{"@ C10 ring " + t[1]}, c.Lines[i+1:]...)}
+					return check(sub, append([]string{"ok"}, out[i+1:]...))
+				}
+			}
+			if out[i] == "panic" {
+				return nil
+			}
+		}
+		return nil
 	}
 	capacity, _ := strconv.Atoi(hdr[3])
 	if capacity <= 0 {
